@@ -48,7 +48,8 @@ RULES = {
     'torn': "one case = one seeded plan (swarm config + op list with per-op decision tapes) executed in the cache "
             "world, or one variant of a recorded plan in a systematic sweep (one seeded history in 240 [quick] / 80 "
             "[thorough] is re-executed once per seam step x {crash before, crash after, EIO, EACCES, torn write at 3 "
-            "offsets}); non-trivial = at least one fault fired inside an op (crash, torn write, one-off errno, disk "
+            "offsets}, and another one once per pickle x 33 truncation offsets (0/32 .. 32/32 of the file) followed by a "
+            "new process, cached parses, heal and repair check); non-trivial = at least one fault fired inside an op (crash, torn write, one-off errno, disk "
             "full, power loss, killed while paused), a corruption was applied to an existing pickle, or a parse ran "
             "against a damaged entry; distinct = distinct sha1 of the full event log (every seam step with process, "
             "call kind, path class, decision and size, plus op boundaries and outcomes)",
@@ -247,8 +248,70 @@ def _worker(args):
             sweep_faults(plan, res, seed, out, deadline)
             if out['violations']:
                 break
+        elif profile == 'torn' and seed % (240 if tier == 'quick' else 80) == 127 % (240 if tier == 'quick' else 80) \
+                and time.time() < deadline:
+            sweep_truncations(plan, res, seed, out, deadline)
+            if out['violations']:
+                break
     faulthandler.cancel_dump_traceback_later()
     return out
+
+
+def sweep_truncations(plan, res, seed, out, deadline):
+    """Every (strided) truncation offset of the pickles a seeded history has produced: the history is cut
+    after its last op that wrote a pickle, then: truncate pickle `sel` at offset k, new process, cached
+    parse of every entry, heal, repair check."""
+    last = None
+    written = {}
+    for ev in res['events']:
+        if ev[0] == 's' and ev[3] == 'replace' and ev[4] == 'pkl':
+            last = ev[1]
+            written[ev[1]] = True
+    if last is None:
+        return
+    ops = plan['ops']
+    combos = []
+    for op in ops[:last + 1]:
+        if op.get('k') == 'parse' and op.get('m') != 'nocache' and 'code' not in op:
+            key = (op['f'], op['g'], op.get('c', 0))
+            if key not in combos:
+                combos.append(key)
+    c = out['counters']
+    c['sweep.truncation_histories'] = c.get('sweep.truncation_histories', 0) + 1
+    for sel in range(min(3, len(combos))):
+        for frac in range(0, 33):
+            if time.time() > deadline:
+                return
+            cand = copy.deepcopy(plan)
+            tail = [{'k': 'corrupt', 'c': combos[sel][2], 'sel': sel, 'how': 'truncate-frac', 'a': frac, 'b': 32, 'r': 0}]
+            for p in range(cand['config'].get('nproc', 1)):
+                tail.append({'k': 'restart', 'proc': p})
+            for (f, g, cc) in combos[:3]:
+                tail.append({'k': 'parse', 'p': 0, 'f': f, 'g': g, 'c': cc, 'm': 'cache', 't': [], 'quiet': True})
+            tail.append({'k': 'heal'})
+            for (f, g, cc) in combos[:2]:
+                tail.append({'k': 'repaircheck', 'p': 0, 'f': f, 'g': g, 'c': cc})
+            cand['ops'] = cand['ops'][:last + 1] + tail
+            cand['config']['p_fault'] = 0.0
+            try:
+                r = replay_plan(cand)
+            except BaseException as e:
+                out['harness'].append('truncation sweep of seed %d: %r' % (seed, e))
+                return
+            c['sweep.truncation_points'] = c.get('sweep.truncation_points', 0) + 1
+            out['runs'] += 1
+            out['steps'] += r['steps']
+            for k, v in r['counters'].items():
+                if k.startswith('corrupt.') or k.startswith('probe.parse_with_damaged'):
+                    c[k] = c.get(k, 0) + v
+            if r['harness_error']:
+                out['harness'].append('truncation sweep of seed %d: %s' % (seed, r['harness_error']))
+                return
+            out['digests'][r['digest']] = seed
+            if r['violation'] is not None:
+                out['violations'].append({'seed': seed, 'plan': cand, 'violation': r['violation'],
+                                          'digest': r['digest']})
+                return
 
 
 def sweep_faults(plan, res, seed, out, deadline):
